@@ -33,6 +33,7 @@ type solveCfg struct {
 	agree    int // number of solver builds that must say unsat (thorough: 2)
 	workers  int
 	lemmas   []*Lemma
+	known    map[string]bool // obligation keys listed as known findings: expected to fail, short time-out
 }
 
 func runSolver(sp solverSpec, file string, timeoutS int) (verdict, output string, ms int64) {
@@ -164,9 +165,13 @@ func solveOne(o *Obligation, cfg solveCfg) {
 		ms      int64
 	}
 	ch := make(chan res, len(solvers))
+	tmo := cfg.timeoutS
+	if cfg.known[o.Key] {
+		tmo = 2
+	}
 	launch := func(sp solverSpec) {
 		go func() {
-			v, out, ms := runSolver(sp, o.SMT, cfg.timeoutS)
+			v, out, ms := runSolver(sp, o.SMT, tmo)
 			ch <- res{sp, v, out, ms}
 		}()
 	}
